@@ -39,4 +39,24 @@ PLAN = {
         "assumptions": COMMON_ASSUME + ["NewID returns fresh pairwise distinct ids", "Owns/Exists/InboxContains are functions of the id (uninterpreted)", "IRIs are absolute https IRIs in URL-normal form"],
         "tiers": {"quick": {"params": {"faults": 1, "nobj": 1}, "timeout_s": 1500}, "thorough": {"params": {"faults": 2, "nobj": 2}, "timeout_s": 6000}},
     },
+    "C07": {
+        "level_text": "For each of the five entry points, all protocol configurations, authentication outcomes {ok, denied, error} and block outcomes {no, yes, error}: (a) with the HTTP method and the Content-Type/Accept header as unconstrained symbolic strings, 'not an ActivityPub request' (reference predicate over the nine documented media types, decided by cvc5's str.contains) implies not handled, nil error and an empty call log; a disabled protocol implies 405 with no application call at all; (b) for a valid request of every handled activity type, bare object, unknown type and garbled body, with at most one injected fault, every Database/Transport call and side-effect callback in the ghost log carries the 'authenticated' (and for inbox POSTs 'block check passed') flag.",
+        "level_note": "Trusted: symgo, stdlib models, cvc5; the request-body hook is not counted as a side-effect callback (it is documented to run between authentication and authorisation); the ActivityStreams handler has no authentication step so only the classification clause applies to it",
+        "pkg": "./pub",
+        "explanation": EXPL + "C07: ghost flags set by the application's authentication / block callbacks are checked on every logged call; request classification uses symbolic method and header strings.",
+        "bounds": "1 object per activity, 1 recipient, at most 1 fault (thorough 2), recursion limits 1; method/header arbitrary strings in the Classify harnesses",
+        "outside": "header keys other than Content-Type/Accept; multiple header values",
+        "assumptions": COMMON_ASSUME + ["a denied authentication is answered by the application itself (401)"],
+        "tiers": {"quick": {"params": {"faults": 1}, "timeout_s": 2400}, "thorough": {"params": {"faults": 2}, "timeout_s": 9000}},
+    },
+    "C10": {
+        "level_text": "On every path of every request scenario of C07 plus id-kind variants {absent, null, empty, number, object, relative}, missing object/target variants and one injected fault at every fallible call: exactly one of {not handled & nothing written; handled, error, nothing written by the library; handled, nil error, exactly one WriteHeader}, and the status equals the documented table (405/400/403/200/410/201 + Location == new activity id).",
+        "level_note": "Trusted: symgo, stdlib models, cvc5; ResponseWriter.Write always accepts all bytes; a denied authentication is answered by the application (its 401 is not the library's status)",
+        "pkg": "./pub",
+        "explanation": EXPL + "C10: the harness ResponseWriter counts WriteHeader/Write/Header use; the outcome trichotomy and the status table are asserted on every path.",
+        "bounds": "as C07; id kinds from a 7-entry menu (number symbolic)",
+        "outside": "failures of ResponseWriter.Write itself",
+        "assumptions": COMMON_ASSUME,
+        "tiers": {"quick": {"params": {"faults": 1}, "timeout_s": 2400}, "thorough": {"params": {"faults": 2}, "timeout_s": 9000}},
+    },
 }
